@@ -11,7 +11,7 @@ CHECKS = {
         text="Every path of the real TLV.decode_bytes / encode_list / validate_key is explored symbolically within the bounds and each "
              "end-of-path obligation is discharged by z3: decoder totality and value-length soundness for all byte strings up to the "
              "bound (quick 10, thorough 15 bytes), canonical encoding / round trip for symbolic types and opaque contents at the boundary "
-             "lengths, expected-types filter. Bounded, not a proof: longer inputs and longer item lists are outside.",
+             "lengths, expected-types filter. Bounded, not a proof: longer inputs and longer item lists are outside. Also: the caller's buffer is untouched by decode_bytearray; BLE fragment reassembly through the real _pairing_char_write (2-3 pieces, any sizes).",
         note="Trusted: CPython semantics mirrored by the rope proxies (cross-checked on sampled paths against the real library), z3, the "
              "40-line reference TLV8 codec in harness/refs.py. TLV.to_string stubbed.",
         design="DESIGN.md section 5 C15"),
@@ -20,7 +20,7 @@ CHECKS = {
              "(0..1024) and all cut positions are solver variables, so one run covers every segmentation and every frame-size "
              "choice within the bound (quick F<=2,R<=3; thorough up to F=4/R=4); z3 discharges 'delivered == sent, in order, once'. "
              "send_bytes is checked for every payload length against a reference accessory. Forged frames/length prefixes under an "
-             "ideal AEAD. Bounded: longer streams are outside.",
+             "ideal AEAD. Bounded: longer streams are outside. Also: any other 16-bit length prefix, two sessions in one process, 67 frames (> 64 KiB) in one read.",
         note="Trusted: ideal AEAD model (a forged frame is rejected by the real primitive), rope proxies (model-based differential "
              "against the real library with real ChaCha20-Poly1305 on sampled paths), z3. HTTP layer stubbed (C07).",
         design="DESIGN.md section 5 C05"),
@@ -28,7 +28,7 @@ CHECKS = {
         text="The real HttpResponse.parse and the data_received feed loop run on windows with solver-variable bounds over concrete "
              "template streams (fixed core + seeded random; HTTP/EVENT, content-length, chunked, body-less, tricky bodies): every "
              "placement of 2 (thorough also 3) cut points is covered per stream and z3 discharges 'messages == sent, in order, "
-             "nothing left over'. Message content is enumerated, segmentation is decided symbolically.",
+             "nothing left over'. Message content is enumerated, segmentation is decided symbolically. Also: the i-th response resolves the i-th queued request; two encrypted frames at every cut (unit of C05).",
         note="Trusted: rope proxies incl. find() as a case split over CRLF occurrences (model-based differential vs the real parser "
              "on sampled paths), z3. Futures/event sink are recorders.",
         design="DESIGN.md section 5 C07"),
@@ -133,7 +133,8 @@ CHECKS = {
              "over {next waiter starts, advertisement for id A / B, malformed advertisement, waiter k cancelled, waiter k's timeout "
              "fires} with 2 (3) waiters over 2 ids, both resume orders, wake-ups optionally delayed past the next callback: woken by "
              "the first valid advertisement for its id, AccessoryNotFoundError at the timeout, CancelledError when cancelled, no callback "
-             "raises. (c) HomeKitService.from_service_info over selector-built records (address lists, key/id spelling, numbers). "
+             "raises. (c) HomeKitService.from_service_info over selector-built records (address lists, key/id spelling, bare keys, numbers), "
+             "mDNS records through the browser callback incl. a goodbye inside the resolve delay, the start-up cache scan with malformed PTRs. "
              "NOT decided: the aggregate Controller.async_find (asyncio.create_task/wait need a running loop), real timers.",
         note="Trusted: ideal partial-tag AEAD, IntFlag constructors as identity, recorders for BleDiscovery/cache/task creation, harness "
              "futures/timers standing in for asyncio's (state machine and Task.cancel/asyncio.timeout semantics as documented), z3. "
@@ -185,7 +186,9 @@ CHECKS = {
              "IpPairing._ensure_connected / ensure_connection with loop-free stand-ins for shield, asyncio.timeout and the connector "
              "task: the caller waits on a shielded future, a caller that is cancelled or times out gets CancelledError / "
              "AccessoryDisconnectedError (naming the connector's last error) and the connector is not cancelled, a connector that "
-             "connects / returns unconnected / fails with an authentication error gives the caller that answer. NOT decided: "
+             "connects / returns unconnected / fails with an authentication error gives the caller that answer; (h) how a failed attempt ends "
+             "(back-off sleep vs end of the connector), a session closed after an HTTP 4xx whose loss restarts the connector, zeroconf "
+             "records reaching the pairing by every route, shutdown() marking the pairing before it awaits close(). NOT decided: "
              "single-connector under truly concurrent triggers, happy-eyeballs, wall-clock behaviour (need a running loop).",
         note="In (b)-(d) all symbolic variables are discrete selectors: the guarantee equals bounded exhaustive exploration of fault "
              "histories of the real coroutine; _connect_once, asyncio.sleep, interrupt, create_future, async_create_task are stubs.",
@@ -197,7 +200,9 @@ CHECKS = {
              "_stop_connector and _connection_lost run against a harness-side network model for every history of K (quick 2, "
              "thorough: K=2 with all 13 and K=3 with 8 representative) connection attempts x 13 set-up outcomes, one peer close or late connection_lost of any connection made so "
              "far, and close() with the connector in each of 5 states: at most one open connection and it is the current one, none "
-             "left after a failed set-up or close(), close() never raises, a stale loss does not disturb the current connection. "
+             "left after a failed set-up or close(), close() never raises (also on a reset socket), stops a running connector and lets no "
+             "second one start meanwhile, a stale loss does not disturb the current connection; outcomes include a failing "
+             "connection_made hook after a successful verify and the real get_session_keys with damaged pairing data. "
              "NOT decided: real sockets/tasks, close() racing a running attempt.",
         note="All symbolic variables are discrete selectors (bounded exhaustive exploration of fault histories of the real coroutines); "
              "fake loop/transport, scripted get_session_keys, immediate replies.",
